@@ -18,6 +18,8 @@ _CMP_DUNDER = {"__eq__": ast.Eq, "__ne__": ast.NotEq, "__lt__": ast.Lt, "__le__"
 
 
 def call_method(I_, recv, name, args, kws, st, ctx, k, node):
+  from .models import gobj, gobj_mutable
+  recv = gobj(st, recv)
   if isinstance(recv, Union):
     return I_.split(recv, st, lambda st2, r: call_method(I_, r, name, args, kws, st2, ctx, k, node))
   if not (isinstance(recv, Ref) and name in ("append", "insert", "add", "setdefault", "get", "pop", "remove",
@@ -102,9 +104,10 @@ def call_method(I_, recv, name, args, kws, st, ctx, k, node):
       for kk, vv in recv.items():
         d[hashkey(kk)] = (kk, vv)
       return k(st, st.alloc("dict", dict, d))
+  if isinstance(recv, (list, dict, set)) and not isinstance(recv, Ref) and name in _MUTATORS and fully_concrete(recv):
+    # the container is part of the program's global state: mutate its per-path heap copy
+    return gobj_mutable(I_, st, recv, ctx, lambda st2, r: call_method(I_, r, name, args, kws, st2, ctx, k, node), node)
   if fully_concrete(recv) and all(fully_concrete(a) for a in args) and all(fully_concrete(v) for v in kws.values()):
-    if isinstance(recv, (list, dict, set)) and name in _MUTATORS:
-      raise Unsupported("mutation of concrete global container via .%s" % name)
     try:
       r = getattr(recv, name)(*args, **kws)
     except Exception as e:
